@@ -202,9 +202,18 @@ def check(prop, tier, only=None, nproc=None, write_evidence=True):
         kf = [k for k in known if k["id"] == kid][0]
         print(f"KNOWN-FINDING: property={prop} {kf['id']}: {kf.get('what', '')}")
     if code == 2:
+        seen_msgs = {}
         for r in results:
             if r["status"] in ("error", "inconclusive"):
-                print(f"INCONCLUSIVE {prop} {r['ob']} {json.dumps(r['params'])}: {r.get('error') or r.get('unknown') or r.get('unsupported')}"[:3000], file=sys.stderr)
+                msg = str(r.get('error') or r.get('unknown') or r.get('unsupported'))
+                key = (r["ob"], msg[:120])
+                seen_msgs[key] = seen_msgs.get(key, 0) + 1
+                if seen_msgs[key] == 1:
+                    lim = 2500 if os.environ.get("VF_VERBOSE") else 700
+                    print(f"INCONCLUSIVE {prop} {r['ob']} {json.dumps(r['params'])}: {msg}"[:lim], file=sys.stderr)
+        for (obn, m), c in seen_msgs.items():
+            if c > 1:
+                print(f"  ... {obn}: {c} instances with: {m[:100]}", file=sys.stderr)
     agg["violations"] = nrep
     agg["exit_code"] = code
     if write_evidence and not only:
